@@ -17,7 +17,13 @@ to `Valid`):
   * accepted (and valid) ⇒ REPEX_state + initiate_ensembles + load_paths(valid initial paths)
     + the first W picks (prep_md_items) raise nothing,
   * restart.toml written by REPEX_state.write_toml, read back by setup_config, equals the
-    configuration it was written from (except current.restarted_from).
+    configuration it was written from (except current.restarted_from), and initialises again through the
+    real setup_internal (stored paths read by load_paths_from_disk) up to the first W picks,
+  * the restart route: the `[current]` table of a restart.toml written by the library is kept, the validated
+    tables are edited into the case (every class of invalid configuration of the generators), and the file goes
+    through the real setup_config (restart branch incl. clean_data_file, both entry forms): it must raise
+    TOMLConfigError exactly when the model (Infretis.Config.setupFile) does, return None exactly when the model
+    does, and whatever it returns must be Valid (else C18:restart-route:<clause>).
 """
 from __future__ import annotations
 
@@ -200,6 +206,58 @@ class Real:
             return "none", None
         return "ok " + show_norm(cfg), cfg
 
+    def make_base_restart(self):
+        """let the library write a restart.toml: fresh setup_config of a valid input, REPEX_state,
+        initiate_ensembles, load_paths, write_toml; keep its text/dict, its stored paths and a data file"""
+        import tomli
+        c = mkcase((0, 2, 4), 1, (0, 0, 1), cap=3)
+        code, cfg = self.setup(to_dict(c, self.tmp))
+        if cfg is None:
+            raise RuntimeError(f"base configuration not accepted: {code}")
+        stage, err, st = initialise(cfg)
+        if err:
+            raise RuntimeError(f"base configuration does not initialise: {stage} {err}")
+        store_paths([st._trajs[i] for i in range(st.n - 1)])
+        st.write_toml()
+        with open("restart.toml", "rb") as f:
+            self.base_restart = tomli.load(f)
+        self.restart_data = os.path.join(self.tmp, "restart_data.txt")
+        with open(self.restart_data, "w") as f:
+            f.write("# " + "=" * 58 + "\n# \txxx\tlen\tmax OP\t\t000\t001\t002\n# " + "=" * 58 + "\n")
+
+    def setup_restart(self, d, two_files=False):
+        """the real setup_config on a restart file (or on an input file with a matching restart file next to it)"""
+        import tomli_w
+        with open("edited_restart.toml", "wb") as f:
+            tomli_w.dump(d, f)
+        inp = "edited_restart.toml"
+        if two_files:
+            fresh = {k: v for k, v in d.items() if k != "current"}
+            with open("edited_input.toml", "wb") as f:
+                tomli_w.dump(fresh, f)
+            inp = "edited_input.toml"
+        try:
+            cfg = self.S.setup_config(inp, "edited_restart.toml")
+        except Exception as e:  # noqa: BLE001
+            return err_kind(e), None
+        if cfg is None:
+            return "none", None
+        if "restarted_from" not in cfg["current"]:
+            return "not-the-restart-branch", None
+        return "ok " + show_norm(cfg), cfg
+
+    def setup_internal(self, cfg):
+        """the real setup_internal; only the creation of MD engines / order parameters (def_globals) and the log
+        handlers (setup_logger) are stubbed"""
+        S = self.S
+        old = (S.def_globals, S.setup_logger)
+        S.def_globals = engine_occ_of
+        S.setup_logger = lambda *a, **k: None
+        try:
+            return S.setup_internal(cfg)
+        finally:
+            S.def_globals, S.setup_logger = old
+
     def check(self, d):
         try:
             self.S.check_config(copy.deepcopy(d))
@@ -247,24 +305,10 @@ def initialise(cfg):
         stage = "load_paths"
         st.load_paths(initial_paths(cfg))
         stage = "first-picks"
-        # engine occupation lists as create_engines builds them (without creating MD engines)
-        count = {}
-        for names in cfg["simulation"]["ensemble_engines"]:
-            for e in names:
-                count[e] = count.get(e, 0) + 1
-        st.engine_occ = {e: [-1] * min(k, cfg["runner"]["workers"]) for e, k in count.items()}
-        base = {"mc_moves": st.mc_moves, "interfaces": st.interfaces, "cap": st.cap}
-        picks = 0
-        seen_ens = set()
-        while st.initiate():
-            md = st.prep_md_items(copy.deepcopy(base))
-            picks += 1
-            for e in md["ens_nums"]:
-                if e in seen_ens:
-                    return stage, "ensemble-picked-twice", st
-                seen_ens.add(e)
-        if picks != max(cfg["runner"]["workers"], 0):
-            return stage, f"picks={picks}", st
+        st.engine_occ = engine_occ_of(cfg)
+        err = first_picks(st, cfg)
+        if err:
+            return stage, err, st
         return "done", None, st
     except Exception as e:  # noqa: BLE001
         return stage, err_kind(e), None if stage == "REPEX_state" else st
@@ -276,35 +320,118 @@ def strip_restart(cfg):
     return c
 
 
-def restart_roundtrip(real, st):
-    """write restart.toml with the real writer, read it back with the real setup_config"""
+def canon(x):
     import numpy as np
-    n = len(st.config["current"]["active"])
-    for i in st.live_paths():
-        os.makedirs(os.path.join("load", str(i)), exist_ok=True)
-        open(os.path.join("load", str(i), "traj.txt"), "w").close()
+    if isinstance(x, dict):
+        return {str(k): canon(v) for k, v in x.items()}
+    if isinstance(x, (list, tuple)):
+        return [canon(v) for v in x]
+    if isinstance(x, (np.integer,)):
+        return int(x)
+    if isinstance(x, (np.floating,)):
+        return float(x)
+    return x
+
+
+def store_paths(paths, load_dir="load"):
+    """the paths in the library's on-disk format (traj.txt, order.txt, accepted/<file>), as load_path reads them"""
+    for p in paths:
+        d = os.path.join(load_dir, str(p.path_number))
+        os.makedirs(os.path.join(d, "accepted"), exist_ok=True)
+        fn = f"f{p.path_number}.xyz"
+        open(os.path.join(d, "accepted", fn), "w").close()
+        with open(os.path.join(d, "traj.txt"), "w") as f:
+            f.write("#       time        trajfile      index   vel\n")
+            for k in range(len(p.phasepoints)):
+                f.write(f"{k:10d} {fn:>15s} {k:10d} {1:5d}\n")
+        with open(os.path.join(d, "order.txt"), "w") as f:
+            f.write("#       time      orderparam\n")
+            for k, s in enumerate(p.phasepoints):
+                f.write(f"{k:10d} {float(s.order[0]):15.4f}\n")
+
+
+def engine_occ_of(cfg):
+    """engine occupation lists as create_engines builds them (without creating MD engines)"""
+    count = {}
+    for names in cfg["simulation"]["ensemble_engines"]:
+        for e in names:
+            count[e] = count.get(e, 0) + 1
+    return {e: [-1] * min(k, cfg["runner"]["workers"]) for e, k in count.items()}
+
+
+def first_picks(st, cfg):
+    base = {"mc_moves": st.mc_moves, "interfaces": st.interfaces, "cap": st.cap}
+    picks = 0
+    seen_ens = set()
+    while st.initiate():
+        md = st.prep_md_items(copy.deepcopy(base))
+        picks += 1
+        for e in md["ens_nums"]:
+            if e in seen_ens:
+                return "ensemble-picked-twice"
+            seen_ens.add(e)
+    if picks != max(cfg["runner"]["workers"], 0):
+        return f"picks={picks}"
+    return None
+
+
+def restart_roundtrip(real, st):
+    """store the live paths, write restart.toml with the real writer, read it back with the real setup_config
+    (restart branch), and initialise again through the real setup_internal up to the first picks"""
+    store_paths([st._trajs[i] for i in range(st.n - 1)])
     st.write_toml()
     before = copy.deepcopy(st.config)
     try:
         again = real.S.setup_config("restart.toml", "restart.toml")
     except Exception as e:  # noqa: BLE001
-        return err_kind(e), None, None
-    finally:
-        shutil.rmtree("load", ignore_errors=True)
+        return err_kind(e), None, None, None
     if again is None:
-        return "none", None, None
+        return "none", None, None, None
+    b, a = canon(strip_restart(before)), canon(strip_restart(again))
+    stage = "setup_internal"
+    try:
+        md_items, st2 = real.setup_internal(again)
+        if len(st2.ensembles) != len(again["simulation"]["interfaces"]):
+            return "ok", b, a, f"{stage}:wrong-number-of-ensembles"
+        if [int(x) for x in st2.live_paths()] != [int(x) for x in again["current"]["active"]]:
+            return "ok", b, a, f"{stage}:active-paths-not-restored"
+        stage = "first-picks"
+        err = first_picks(st2, again)
+        return "ok", b, a, (f"{stage}:{err}" if err else None)
+    except Exception as e:  # noqa: BLE001
+        return "ok", b, a, f"{stage}:{err_kind(e)}"
 
-    def canon(x):
-        if isinstance(x, dict):
-            return {str(k): canon(v) for k, v in x.items()}
-        if isinstance(x, (list, tuple)):
-            return [canon(v) for v in x]
-        if isinstance(x, (np.integer,)):
-            return int(x)
-        if isinstance(x, (np.floating,)):
-            return float(x)
-        return x
-    return "ok", canon(strip_restart(before)), canon(strip_restart(again))
+
+RESTART_VARIANTS = {
+    # name -> (cstep, restarted_from, steps, active paths on disk)
+    "go": (0, None, 10, True),
+    "go-no-step-but-steps-left": (5, 5, 10, True),
+    "go-after-steps": (7, 3, 10, True),
+    "finished": (10, 10, 10, True),
+    "path-missing": (0, None, 10, False),
+}
+
+
+def restart_dict(real, c, variant):
+    """the library-written restart file with its validated tables edited into case `c`"""
+    cstep, rfrom, steps, present = RESTART_VARIANTS[variant]
+    d = to_dict(c, real.tmp)
+    d["simulation"]["steps"] = steps
+    d["output"]["data_file"] = real.restart_data
+    cur = copy.deepcopy(real.base_restart["current"])
+    cur["cstep"] = cstep
+    cur.pop("restarted_from", None)
+    if rfrom is not None:
+        cur["restarted_from"] = rfrom
+    if not present:
+        cur["active"] = list(cur["active"][:-1]) + [987]
+    d["current"] = cur
+    return d
+
+
+def restart_line(c, variant):
+    cstep, rfrom, steps, present = RESTART_VARIANTS[variant]
+    return f"restart {cstep} {'-' if rfrom is None else rfrom} {steps} {1 if present else 0} " + to_line("x", c)[2:]
 
 
 # --------------------------------------------------------------------------- generators
@@ -455,13 +582,19 @@ def judge(ctx, real, c, code_setup, cfg, do_init, do_restart):
                          f"accepted configuration raises {err} in {stage}",
                          {"case": obj, "stage": stage, "error": err})
             if err is None and do_restart and st is not None:
-                r, before, again = restart_roundtrip(real, st)
+                r, before, again, ierr = restart_roundtrip(real, st)
                 ctx.hit(f"restart-roundtrip:{r}")
                 if r != "ok" or before != again:
                     diff = [] if before is None else [k for k in set(before) | set(again) if before.get(k) != again.get(k)]
                     fail_once(ctx, "C18:restart-not-a-fixed-point",
-                             f"restart.toml read back → {r}; differing sections {sorted(diff)}",
-                             {"case": obj, "result": r, "differing": sorted(diff)})
+                              f"restart.toml read back → {r}; differing sections {sorted(diff)}",
+                              {"case": obj, "result": r, "differing": sorted(diff)})
+                elif ierr is not None:
+                    fail_once(ctx, "C18:restart-route:accepted-valid-but-init-fails:" + ierr.split(":")[0],
+                              f"the restart file written for an accepted configuration is accepted but {ierr}",
+                              {"case": obj, "error": ierr, "route": "restart"})
+                else:
+                    ctx.hit("restart-roundtrip:initialised-again")
         return "accepted-invalid" if bad else "accepted"
     # rejected
     d = py_normalised(to_dict(c, real.tmp))
@@ -485,6 +618,43 @@ def judge(ctx, real, c, code_setup, cfg, do_init, do_restart):
     return "invalid-rejected"
 
 
+def judge_restart(ctx, real, c, variant, two_files, code, cfg):
+    """property predicate on the real outcome of the restart route"""
+    obj = case_obj(c)
+    rep = {"case": obj, "route": "restart", "variant": variant, "two_files": two_files}
+    if code == "not-the-restart-branch":
+        fail_once(ctx, "C18:restart-route:restart-file-ignored",
+                  "setup_config(input, restart) with equal settings did not take the restart branch", rep)
+        return "restart:ignored"
+    if cfg is not None:
+        bad = py_valid(cfg)
+        if bad:
+            fail_once(ctx, f"C18:restart-route:{bad[0]}",
+                      f"setup_config accepted a restart file whose configuration violates: {', '.join(bad)}",
+                      dict(rep, violated=bad, expect="rejected with TOMLConfigError"))
+            return "restart:accepted-invalid"
+        return "restart:accepted"
+    if code == "none":
+        return "restart:none"
+    bad = py_valid(py_normalised(to_dict(c, real.tmp)))
+    if bad and code != "err:config":
+        fail_once(ctx, f"C18:restart-route:invalid-rejected-with-{code.replace('err:', '')}-error:"
+                  + ("empty-interfaces" if not c[0] else bad[0]),
+                  f"invalid restart configuration ({', '.join(bad)}) is rejected with {code}, not TOMLConfigError",
+                  dict(rep, violated=bad, code=code))
+        return "restart:invalid-wrong-kind"
+    return "restart:invalid-rejected" if bad else "restart:valid-rejected"
+
+
+def invalid_class(c, code_setup, real):
+    """class of a case for the coverage rule of the restart route: violated clauses × outcome of the fresh route"""
+    try:
+        bad = tuple(py_valid(py_normalised(to_dict(c, real.tmp))))
+    except Exception:  # noqa: BLE001
+        bad = ("?",)
+    return bad, code_setup.split(" ")[0]
+
+
 def run(ctx):
     real = Real()
     try:
@@ -499,7 +669,9 @@ def _run(ctx, real):
                 "{absent,false,-3,-2,-1,0,1,2,5} × quantis ∈ {absent,false,true}; (C) interfaces × workers -1..n+1; "
                 "(D) ensemble_engines (absent, [], every list of length n-1..n+1 over 5 per-ensemble choices) × engine "
                 "table subsets × 7 class/input_path profiles × quantis; (E) seeded random mix of all fields. "
-                "Distinct = distinct case tuples; non-trivial = every case except accepted ones without cap, λ₋₁, "
+                "Every case also goes through the restart route (library-written [current] table kept, validated tables "
+                "edited into the case; quick: ≥ 20 per class of (violated clauses, outcome) and every 6th case; thorough: "
+                "all), with 5 restart variants and both entry forms. Distinct = distinct case tuples; non-trivial = every case except accepted ones without cap, λ₋₁, "
                 "quantis and ensemble_engines.")
     cases = [c for _, c in WITNESSES] + gen_cases(ctx)
     seen = set()
@@ -515,8 +687,13 @@ def _run(ctx, real):
     have_model = ctx._driver_ok
     if have_model:
         out = ctx.driver([to_line("all", c) for c in cases])
+    real.make_base_restart()
     n_init = 0
     n_restart = 0
+    class_seen = {}
+    rcases = []     # (case index, variant, two_files, code outcome) of the restart route, model compared afterwards
+    per_class = 20 if ctx.quick else 200
+    variants = list(RESTART_VARIANTS)
     init_budget = 8000 if ctx.quick else 40000
     restart_budget = 150 if ctx.quick else 1500
     for k, c in enumerate(cases):
@@ -540,25 +717,49 @@ def _run(ctx, real):
         if do_init:
             n_init += 1
         branch = judge(ctx, real, c, code_setup, cfg, do_init, do_restart)
-        n_restart = sum(v for k2, v in ctx.hist.items() if k2.startswith("restart-roundtrip:"))
+        if do_restart and cfg is not None:
+            n_restart += 1
+        # ---- the same case through the restart route: every class at least `per_class` times, and a fixed
+        # fraction of all cases (all of them in the thorough tier)
+        cls = invalid_class(c, code_setup, real)
+        class_seen[cls] = class_seen.get(cls, 0) + 1
+        if k < len(WITNESSES) or class_seen[cls] <= per_class or not ctx.quick or k % 6 == 0:
+            variant = "go" if (k % 9) else variants[(k // 9) % len(variants)]
+            two_files = (k % 13 == 5)
+            rcode, rcfg = real.setup_restart(restart_dict(real, c, variant), two_files)
+            rbranch = judge_restart(ctx, real, c, variant, two_files, rcode, rcfg)
+            ctx.count(1, branch=rbranch, restart_variant=variant)
+            rcases.append((k, variant, two_files, rcode))
         ctx.count(1, branch=branch, outcome=code_setup.split(" ")[0])
         if not (cfg is not None and c[3] is None and c[4] == "A" and c[5] is None and c[6] is None):
             ctx.distinct(c)
         if k < 3 or k % 20011 == 0:
             ctx.sample({"case": case_obj(c), "setup_config": code_setup, "check_config_raw": code_check})
+    if have_model and rcases:
+        rout = ctx.driver([restart_line(cases[k], variant) for (k, variant, _, _) in rcases])
+        for (k, variant, two_files, rcode), m in zip(rcases, rout):
+            if rcode != m:
+                ctx.disagree({"fn": "setup_config(restart file)", "variant": variant, "two_files": two_files,
+                              "case": case_obj(cases[k])}, rcode, m)
+    ctx.extra["restart_route_cases"] = ctx.extra.get("restart_route_cases", 0) + len(rcases)
+    ctx.extra["restart_route_classes"] = len(class_seen)
     ctx.extra.pop("_sigs", None)
     ctx.extra["initialised_for_real"] = n_init
     ctx.extra["restart_roundtrips"] = n_restart
-    ctx.assumptions += [
+    for a in [
         "interfaces, cap and λ₋₁ are integer-valued floats (only compared, exact in Python and Int in the model)",
         "shooting moves are 'sh'/'wf'; engine tables carry class, optional input_path and one more setting; "
         "referenced engine names do not collide with the non-engine sections (runner, simulation, output, current)",
-        "the [current] section (restart branch: restarted_from, missing active paths → None) is outside the model; "
-        "the real restart round trip is compared on the whole dict except current.restarted_from",
-        "initialisation is run for real up to the first W picks (prep_md_items) with engine occupation lists built "
-        "as create_engines does, without creating MD engines; initial paths are three-frame paths touching λ_i",
+        "restart branch: the model (setupFile) knows cstep / restarted_from / steps / 'active paths on disk'; the rest "
+        "of [current] is taken verbatim from a restart.toml written by the library; the real round trip is compared on "
+        "the whole dict except current.restarted_from",
+        "initialisation is run for real up to the first W picks (prep_md_items); after a restart through the real "
+        "setup_internal with def_globals (MD engine creation) and setup_logger stubbed; initial paths are unit-step "
+        "paths reaching λ_i",
         "tomli/tomli_w are trusted to be lossless on what is written",
-    ]
+    ]:
+        if a not in ctx.assumptions:
+            ctx.assumptions.append(a)
 
 
 def replay(ctx, obj):
@@ -576,6 +777,13 @@ def replay(ctx, obj):
         nfail = lambda: sum(v for k, v in ctx.hist.items() if k.startswith("fail:"))  # noqa: E731
         n0 = nfail()
         judge(ctx, real, c, code_setup, cfg, True, True)
+        # … and through the restart route (recorded variant / entry form, default: a restart that goes on)
+        real.make_base_restart()
+        variant = r.get("variant", "go")
+        two_files = bool(r.get("two_files", False))
+        rcode, rcfg = real.setup_restart(restart_dict(real, c, variant), two_files)
+        print("setup_config(restart file):", rcode)
+        judge_restart(ctx, real, c, variant, two_files, rcode, rcfg)
         for f in ctx.fails:
             print("FAIL", f["signature"], "-", f["what"])
         return 1 if nfail() > n0 else 0
